@@ -89,6 +89,9 @@ func (rp *rangeProof) writes(fd *ast.FuncDecl, n ast.Node, o types.Object) (incs
 				switch {
 				case (v.Tok == token.DEFINE || v.Tok == token.ASSIGN) && len(v.Lhs) == len(v.Rhs):
 					defs = append(defs, v.Rhs[i])
+				case (v.Tok == token.DEFINE || v.Tok == token.ASSIGN) && len(v.Rhs) == 1 && isTupleCall(rp.info, v.Rhs[0]):
+					// the i-th result of a call: written as call[i], which no Go program contains
+					defs = append(defs, &ast.IndexExpr{X: ast.Unparen(v.Rhs[0]), Index: &ast.BasicLit{Kind: token.INT, Value: strconv.Itoa(i)}})
 				case v.Tok == token.ADD_ASSIGN && len(v.Rhs) == 1:
 					if rp.geZero(fd, v.Rhs[0], v) {
 						incs = append(incs, v)
@@ -190,8 +193,15 @@ func (rp *rangeProof) geZero(fd *ast.FuncDecl, x ast.Expr, at ast.Node) bool {
 			}
 			return rp.geZero(fd, t.X, at) && rp.atLeast(fd, t.X, c, at)
 		}
+	case *ast.IndexExpr:
+		if call, k, ok := tupleResult(rp.info, t); ok {
+			return rp.resultGeZero(call, k)
+		}
 	case *ast.Ident:
 		o := rp.info.Uses[t]
+		if o == nil {
+			o = rp.info.Defs[t]
+		}
 		if o == nil {
 			return false
 		}
@@ -493,4 +503,74 @@ func (rp *rangeProof) leLen(fd *ast.FuncDecl, x ast.Expr, base string, at ast.No
 		return true
 	}
 	return false
+}
+
+func isTupleCall(info *types.Info, x ast.Expr) bool {
+	call, ok := ast.Unparen(x).(*ast.CallExpr)
+	if !ok {
+		return false
+	}
+	_, isTuple := info.TypeOf(call).(*types.Tuple)
+	return isTuple
+}
+
+// tupleResult recognises the synthetic call[i] that writes() uses for the i-th result of a call.
+func tupleResult(info *types.Info, x *ast.IndexExpr) (*ast.CallExpr, int, bool) {
+	call, ok := x.X.(*ast.CallExpr)
+	if !ok || !isTupleCall(info, call) {
+		return nil, 0, false
+	}
+	lit, ok := x.Index.(*ast.BasicLit)
+	if !ok {
+		return nil, 0, false
+	}
+	k, err := strconv.Atoi(lit.Value)
+	return call, k, err == nil
+}
+
+// resultGeZero: the k-th result of the called function of this package is non-negative at every
+// return (a bare return gives the named result, whose writes are then looked at like a local's).
+func (rp *rangeProof) resultGeZero(call *ast.CallExpr, k int) bool {
+	fn := calleeFunc(rp.info, call)
+	if fn == nil || fn.Pkg() != rp.pkg.Types {
+		return false
+	}
+	var decl *ast.FuncDecl
+	for _, d := range load.AllFuncDecls(rp.pkg) {
+		if rp.info.Defs[d.Name] == types.Object(fn) {
+			decl = d
+		}
+	}
+	if decl == nil || decl.Body == nil || decl.Type.Results == nil {
+		return false
+	}
+	var named []*ast.Ident
+	for _, f := range decl.Type.Results.List {
+		named = append(named, f.Names...)
+	}
+	good, n := true, 0
+	var visit func(nd ast.Node) bool
+	visit = func(nd ast.Node) bool {
+		switch v := nd.(type) {
+		case *ast.FuncLit:
+			return false
+		case *ast.ReturnStmt:
+			n++
+			switch {
+			case len(v.Results) == 0:
+				if k >= len(named) || !rp.geZero(decl, named[k], v) {
+					good = false
+				}
+			case k < len(v.Results):
+				if !rp.geZero(decl, v.Results[k], v) {
+					good = false
+				}
+			default:
+				good = false // return f() forwarding a tuple
+			}
+		}
+		return true
+	}
+	ast.Inspect(decl.Body, visit)
+	return good && n > 0
 }
